@@ -57,13 +57,67 @@ def construct (n : Nat) (xs : List Int) : List Int := (xs ++ List.replicate n 0)
 def constructLoop (n : Nat) (xs : List Int) : List Int :=
   (List.range (min n xs.length)).foldl (fun acc i => acc.set i (xs.getD i 0)) (List.replicate n 0)
 
-/-- entry `j` of a one-dimensional buffer: `static_cast<K*>(info.ptr)[j*stride]` (pointer `off`, stride in elements) -/
+/-- entry `j` of a one-dimensional buffer whose first entry is cell `off` and whose consecutive entries are `stride`
+    cells apart (the specification: which number a buffer shows at position `j`) -/
 def bufEntry (mem : List Int) (off stride : Int) (j : Nat) : Int := mem.getD (off + (j : Int) * stride).toNat 0
 
-/-- what `registerFieldVector`'s buffer constructor does:
-    `sz = min(size, info.shape[0]); FV *self = new FV(K(0)); for (i = 0; i < sz; ++i) (*self)[i] = ptr[i*stride];` -/
-def constructBuf (n : Nat) (mem : List Int) (off stride : Int) (shape : Nat) : List Int :=
-  (List.range (min n shape)).foldl (fun acc i => acc.set i (bufEntry mem off stride i)) (List.replicate n 0)
+/-! ### byte addresses: what the buffer protocol hands to the bindings
+
+The buffer protocol (`pybind11::buffer_info`) describes a one-dimensional buffer by the address of its first entry, the
+number of entries and the distance between consecutive entries **in bytes**.  That distance need not be a multiple of the
+item size: the doubles may be one field of packed records (`rec["x"]` of a structured NumPy array, `as_strided`). -/
+
+/-- how the numbers of a buffer object lie in its allocation: cell `c` starts at byte `rsz*c + fo` (`rsz` = bytes per
+    record, `fo` = offset of the field inside the record).  A plain array of doubles: `rsz = 8`, `fo = 0`. -/
+structure MemLay where
+  rsz : Nat := 8
+  fo : Nat := 0
+  deriving DecidableEq, Repr
+
+/-- byte address (relative to the allocation) of cell `c` -/
+def MemLay.addr (m : MemLay) (c : Int) : Int := (m.rsz : Int) * c + (m.fo : Int)
+
+/-- the cell that starts at byte address `a`; `none`: no number starts there (the bytes at `a` belong to other fields,
+    to padding, or to two neighbouring numbers) -/
+def MemLay.cellAt (m : MemLay) (a : Int) : Option Int :=
+  if m.rsz = 0 then none
+  else if (a - (m.fo : Int)) % (m.rsz : Int) = 0 then some ((a - (m.fo : Int)) / (m.rsz : Int)) else none
+
+/-- the number read at byte address `a` -/
+def MemLay.load (m : MemLay) (mem : List Int) (a : Int) : Int :=
+  match m.cellAt a with
+  | some c => mem.getD c.toNat 0
+  | none => 0
+
+/-- `pybind11::buffer_info` of a one-dimensional buffer: `ptr`, `strides[0]` (bytes), `shape[0]` -/
+structure BufInfo where
+  ptr : Int
+  stride : Int
+  shape : Nat
+  deriving DecidableEq, Repr
+
+/-- the buffer_info of the buffer that shows `len` cells of an object with layout `m`, first cell `off`, `step` cells apart -/
+def bufInfo (m : MemLay) (off step : Int) (len : Nat) : BufInfo :=
+  { ptr := m.addr off, stride := (m.rsz : Int) * step, shape := len }
+
+/-- `NumPyVector::entry(i)` and NumPy's own indexing: `(char*)ptr + i*stride` -/
+def entryAddr (b : BufInfo) (i : Nat) : Int := b.ptr + (i : Int) * b.stride
+
+/-- addressing in whole items of `w` bytes, `static_cast<K*>(ptr)[i * (stride / sizeof(K))]` (the buffer constructor of
+    `registerFieldVector`; C++ `/` truncates) -/
+def elemAddr (w : Nat) (b : BufInfo) (i : Nat) : Int := b.ptr + (w : Int) * ((i : Int) * (b.stride.tdiv (w : Int)))
+
+/-- NumPy's `aligned` flag for items of alignment `w` (the allocation itself is aligned): an array without entries is
+    aligned; otherwise the first entry's address and, with more than one entry, the stride must be multiples of `w`.
+    NumPy exports the buffer format `d` only for aligned arrays of native doubles (`=d` otherwise). -/
+def BufInfo.aligned (w : Nat) (b : BufInfo) : Bool :=
+  b.shape == 0 || (b.ptr % (w : Int) == 0 && (decide (b.shape ≤ 1) || b.stride % (w : Int) == 0))
+
+/-- what `registerFieldVector`'s buffer constructor does (after the format check accepted the buffer):
+    `stride = info.strides[0] / sizeof(K); sz = min(size, info.shape[0]); FV *self = new FV(K(0));`
+    `for (i = 0; i < sz; ++i) (*self)[i] = static_cast<K*>(info.ptr)[i*stride];` -/
+def constructBuf (n : Nat) (mem : List Int) (m : MemLay) (b : BufInfo) : List Int :=
+  (List.range (min n b.shape)).foldl (fun acc i => acc.set i (m.load mem (elemAddr 8 b i))) (List.replicate n 0)
 
 /-- `registerDynamicVector`'s list constructor: `DV *self = new DV(size, K(0)); for (i < size) (*self)[i] = x[i];` -/
 def dynConstructLoop (xs : List Int) : List Int :=
@@ -154,13 +208,15 @@ def sliceIdx (n : Nat) (i j : Option Int) (st : Int) : Int × Nat :=
 
 /-- a NumPy array / `array.array` register: which cells of which block it shows.  `dt` is the element type of the
     buffer object: 0 = double (the only type a `NumPyVector<double>` or FieldVector shares memory with), 1 … 7 = int64,
-    int32, int16, int8, uint8, uint16, float32, 8 = read-only doubles. -/
+    int32, int16, int8, uint8, uint16, float32, 8 = read-only doubles, 9 = doubles in the other byte order.  `lay`: how the
+    cells lie in the bytes of the allocation. -/
 structure View where
   blk : Nat
   off : Int
   step : Int
   len : Nat
   dt : Nat := 0
+  lay : MemLay := {}
   deriving Repr, DecidableEq
 
 inductive Slot where
@@ -197,8 +253,15 @@ def State.alloc (s : State) (v : List Int) : State × Nat :=
 def State.bindX (s : State) (x b : Nat) : State := { s with xs := upd s.xs x (some b) }
 def State.bindA (s : State) (a : Nat) (v : View) : State := { s with arrs := upd s.arrs a (some v) }
 
-/-- position in the block of entry `j` of a view -/
-def View.pos (v : View) (j : Nat) : Nat := (v.off + (j : Int) * v.step).toNat
+/-- what the buffer protocol reports of a view -/
+def View.info (v : View) : BufInfo := bufInfo v.lay v.off v.step v.len
+
+/-- position in the block of entry `j` of a view: NumPy and `NumPyVector::entry` address it in bytes, `ptr + j*stride`;
+    the position is the cell that starts there (`View.pos_eq`: cell `off + j*step`, whatever the record size) -/
+def View.pos (v : View) (j : Nat) : Nat :=
+  match v.lay.cellAt (entryAddr v.info j) with
+  | some c => c.toNat
+  | none => 0
 
 def State.viewVals (s : State) (v : View) : List Int :=
   (List.range v.len).map fun j => (s.read v.blk).getD (v.pos j) 0
@@ -231,8 +294,8 @@ inductive Eff where
   | writeB (b : Nat) (v : List Int)            -- the cells `b` of a vector are overwritten with `v`
   | bindA (a : Nat) (v : View)                 -- array register `a` becomes a view of existing cells
   | newA (a : Nat) (v : List Int)              -- array register `a` becomes a fresh array holding `v`
-  | newAV (a : Nat) (mem : List Int) (off step : Int) (len dt : Nat)
-                                               -- … a fresh buffer object with memory `mem`, shown through a strided view
+  | newAV (a : Nat) (mem : List Int) (off step : Int) (len dt : Nat) (m : MemLay)
+                                               -- … a fresh buffer object with memory `mem` (layout `m`), shown through a strided view
   | writeCell (v : View) (p : Nat) (k : Int)   -- entry `p` of a view is written
   | writeView (v : View) (vals : List Int)     -- all entries of a view are written
   deriving Repr
@@ -244,9 +307,9 @@ def Eff.apply (s : State) : Eff → State × String
   | .writeB b v => (s.write b v, showInts v)
   | .bindA a v => (s.bindA a v, showInts (s.viewVals v))
   | .newA a v => ((s.alloc v).1.bindA a (fullView (s.alloc v).2 v.length), showInts v)
-  | .newAV a mem off step len dt =>
-    ((s.alloc mem).1.bindA a { blk := (s.alloc mem).2, off := off, step := step, len := len, dt := dt },
-     showInts ((s.alloc mem).1.viewVals { blk := (s.alloc mem).2, off := off, step := step, len := len, dt := dt }))
+  | .newAV a mem off step len dt m =>
+    ((s.alloc mem).1.bindA a { blk := (s.alloc mem).2, off := off, step := step, len := len, dt := dt, lay := m },
+     showInts ((s.alloc mem).1.viewVals { blk := (s.alloc mem).2, off := off, step := step, len := len, dt := dt, lay := m }))
   | .writeCell v p k =>
     ((s.write v.blk ((s.read v.blk).set (v.pos p) k)),
      showInts ((s.write v.blk ((s.read v.blk).set (v.pos p) k)).viewVals v))
@@ -258,23 +321,45 @@ def Eff.apply (s : State) : Eff → State × String
     strided / reversed NumPy view, `array.array`); `badbuf`: a buffer the constructor must reject (wrong item type,
     two-dimensional) -/
 inductive CtorHow where
-  | list | tuple | args | buf (s : Int) | zero | fac | ilist | ituple | iargs
+  | list | tuple | args | buf (s : Int) (m : MemLay) | zero | fac | ilist | ituple | iargs
   | badbuf (dt : Nat)      -- a buffer the constructor must reject: element type `dt` ≠ double (or two-dimensional: `dt = 0`)
   | nakind                 -- a combination of element type and layout that does not exist (strided `array.array`)
   deriving DecidableEq, Repr
 
 /-- memory layouts of the buffer objects the harness builds: contiguous, every 2nd entry, a column of a 2-d array
-    (every 3rd entry), reversed, reversed every 2nd entry -/
+    (every 3rd entry), reversed, reversed every 2nd entry; `q R fo neg k`: one field (byte offset `fo`) of packed records
+    of `R` bytes, every `(k+1)`-th record, walked backwards when `neg` -/
 inductive Lay where
   | c | s2 | col | r | r2
+  | q (R fo : Nat) (neg : Bool) (k : Nat)
   deriving DecidableEq, Repr
 
+/-- distance of consecutive entries in cells (records) -/
 def Lay.stride : Lay → Int
   | .c => 1
   | .s2 => 2
   | .col => 3
   | .r => -1
   | .r2 => -2
+  | .q _ _ neg k => if neg then -((k + 1 : Nat) : Int) else ((k + 1 : Nat) : Int)
+
+def Lay.memLay : Lay → MemLay
+  | .q R fo _ _ => { rsz := R, fo := fo }
+  | _ => {}
+
+/-- item size in bytes of the element types -/
+def dtSize (dt : Nat) : Nat :=
+  match dt with
+  | 2 | 7 => 4
+  | 3 | 6 => 2
+  | 4 | 5 => 1
+  | _ => 8
+
+/-- a field of element type `dt` fits into the records of the layout -/
+def Lay.fits (lay : Lay) (dt : Nat) : Bool :=
+  match lay with
+  | .q R fo _ _ => decide (fo + dtSize dt ≤ R)
+  | _ => true
 
 /-- the numbers an element type can hold (beyond the global bound on exactly representable entries) -/
 def dtOk (dt : Nat) (e : Int) : Bool :=
@@ -376,7 +461,7 @@ def operandStatus (kd : Kind) (ok : OKind) (reflected : Bool) : OStat :=
     (lists only) through its list constructor -/
 def Kind.operand (kd : Kind) (ok : OKind) (L : List Int) : List Int :=
   match kd, ok with
-  | .fv n, .buf s => constructBuf n (stridedMem s L).1 (stridedMem s L).2 s L.length
+  | .fv n, .buf s => constructBuf n (stridedMem s L).1 {} (bufInfo {} (stridedMem s L).2 s L.length)
   | .fv n, _ => constructLoop n L
   | _, _ => dynConstructLoop L
 
@@ -435,7 +520,11 @@ def vecEff (kd : Kind) (s : State) : VOp → Eff
       else if how == .fac && L.length != n then effSkip
       else match how with
         | .badbuf dt => if !L.all (dtOk dt) then effSkip else .obs Err.value.show
-        | .buf st => .newX x (constructBuf n (stridedMem st L).1 (stridedMem st L).2 st L.length)
+        | .buf st m =>
+          -- a buffer NumPy does not call aligned is exported with the format `=d`: rejected by the format check (the harness
+          -- accepts a rejection or exactly the buffer's numbers, and binds nothing)
+          if !(bufInfo m (stridedMem st L).2 st L.length).aligned 8 then .obs "unaligned-ok"
+          else .newX x (constructBuf n (stridedMem st L).1 m (bufInfo m (stridedMem st L).2 st L.length))
         | _ => .newX x (constructLoop n L)
     | _, _ => effNa
   | .copy x y | .mcopy x y =>
@@ -754,13 +843,14 @@ def vecEff (kd : Kind) (s : State) : VOp → Eff
       if !okVals R then effSkip else nvWrite s v R
   | .ndt a b dt lay special =>
     -- a fresh buffer object of element type `dt` and layout `lay` holding the numbers of array register `b`
-    if special && lay != .c then effNa else
+    if special && lay != .c then effNa
+    else if !lay.fits dt then effNa else
     match s.arrs b with
     | none => effUnbound
     | some vb =>
       let A := s.viewVals vb
       if !A.all (dtOk dt) then effSkip
-      else .newAV a (stridedMem lay.stride A).1 (stridedMem lay.stride A).2 lay.stride A.length dt
+      else .newAV a (stridedMem lay.stride A).1 (stridedMem lay.stride A).2 lay.stride A.length dt lay.memLay
   | .nvscale x k =>
     -- NumPyVector<double> directly over the vector object: a FieldVector is a buffer of doubles (shared), a DynamicVector none
     match s.xs x with
